@@ -224,7 +224,12 @@ class CentralityClasses:
             MaxRecord = int(number_events * self.centrality_bins_[i] / 100.0)
 
             self.dNchdetaMax_.append(global_event_record[MinRecord])
-            self.dNchdetaMin_.append(global_event_record[MaxRecord - 1])
+            # a class that ends before the first rank contains no event:
+            # no multiplicity reaches it (index -1 would wrap around to the
+            # smallest multiplicity and put every event into this class)
+            self.dNchdetaMin_.append(
+                global_event_record[MaxRecord - 1] if MaxRecord > 0 else np.inf
+            )
 
             MinRecord = MaxRecord
 
@@ -236,7 +241,8 @@ class CentralityClasses:
         In the case that the multiplicity input exceeds the largest or smallest
         value of the multiplicity used to determine the centrality classes, the
         function returns the index of the most central or most peripheral bin,
-        respectively.
+        respectively. A most central bin which is too narrow to contain any
+        event of the sample is never returned.
 
         Parameters
         ----------
